@@ -13,7 +13,7 @@ RULE = ('(1) payload lists (reference-generated, all payload kinds; plus a VENDO
         'IV(16) + whole blocks, plaintext = payloads + pad + PadLength with PadLength == len(pad), inner bytes == the serialised payloads, only '
         'SK in the clear; parse() under the same keys returns the same payloads, also when the reference seals the same content with every legal amount of extra padding (Pad Length up to 255, zero and non-zero fill). (2) every tampered variant must make Message.parse raise '
         'InvalidSyntax / UnsupportedCriticalPayload: every octet x bit (36 representative message x suite combinations incl. empty-body ones of every '
-        'exchange kind, a third of them also with cleartext payloads in front of SK; 8 bits on header/IV/ICV, 3 on ciphertext), every truncation, extension by 1..32 octets (with and without fixing '
+        'exchange kind, a third of them also with cleartext payloads in front of SK; 8 bits on header/IV/ICV, 3 on ciphertext), every truncation, extension by 1..32 octets at the end and by 1..28 zero / random octets at the FRONT, one octet inserted or removed at every position (with and without fixing '
         'the Length field), another SK_a; under another SK_e the message must still authenticate (protocol error or success, nothing else). '
         '(3) wire monitor: in simulated histories every datagram after IKE_SA_INIT has SK as its only cleartext payload, and every datagram whose ICV verifies under the keys the independent shadow derived decrypts (reference AES-CBC under the IV in the datagram) to a well-formed payload chain; every protected datagram of these honest histories must verify under the negotiated integrity algorithm and derived key. '
         'distinct = (suite, residue / tamper region, outcome).')
@@ -162,6 +162,17 @@ def tamper(ck, rng, data, crypto, keys, tag, thorough):
         if len(b) >= 32:
             struct.pack_into('>H', b, 30, len(b) - 28)
             judge('extend+both-lengths-fixed', bytes(b))
+    # extended at the FRONT, an octet inserted or removed inside (everything behind it shifts)
+    for k_ in (1, 2, 3, 4, 8, 16, 28):
+        judge('prepend.zeros', bytes(k_) + data)
+        judge('prepend.random', gen.rb(rng, k_) + data)
+        b = bytearray(bytes(k_) + data)
+        if len(b) >= 28 + k_:
+            judge('prepend.zeros+copy-of-the-header-length', bytes(b))
+    step_ = 1 if thorough else 3
+    for pos in range(0, L, step_):
+        judge('insert-one-octet', data[:pos] + bytes([rng.randrange(256) if pos % 2 else 0]) + data[pos:])
+        judge('remove-one-octet', data[:pos] + data[pos + 1:])
     # other integrity key
     other_a = r_crypto.Crypto(crypto.cipher, crypto.sk_e, crypto.integrity, gen.rb(rng, len(crypto.sk_a)), crypto.prf, crypto.sk_p)
     msg, ex = try_parse(data, other_a)
